@@ -1,11 +1,13 @@
 (** C13 — spawn / pool / wait are transparent and always finish.
-    Property theorems only; every proof is [exact lemma]. *)
+    Property theorems only; every proof is [exact lemma].
+    [init m true prog] is the model of the code (admission rule since d34a231);
+    [init m false prog] is the rule before that fix, kept for the [_pre] records. *)
 From Coq Require Import List NArith Bool Arith.
 From UV Require Import Model.Pool Proofs.PoolBasic Proofs.PoolShape Proofs.Pool Proofs.PoolWait.
 Import ListNotations.
 
-(** transparency: under every schedule, with any pool size and either admission rule, a
-    side-effect-free program that ends returns what its sequential counterpart returns *)
+(** transparency: under every schedule and with any pool size, a side-effect-free program
+    that ends returns what its sequential counterpart returns *)
 Theorem C13_determinism : forall m rp prog sched r,
   pure prog = true ->
   root_res (run sched (init m rp prog)) = Some r -> r = seqev prog [] [].
@@ -26,69 +28,71 @@ Theorem C13_fifo : forall m rp prog sched x up dn,
   (exists rest, csent up = crcvd up ++ rest) /\ (exists rest, csent dn = crcvd dn ++ rest).
 Proof. exact fifo. Qed.
 
-(** termination, code as written: no reachable deadlock without pool ... *)
-Theorem C13_spawn_progress : forall m prog sched,
+(** termination: no reachable deadlock, for every side-effect-free program, whatever its
+    nesting depth, its number of tasks, the pool size and the interleaving *)
+Theorem C13_pool_progress : forall m prog sched,
+  1 <= m -> pure prog = true ->
+  let st := run sched (init m true prog) in
+  final st = false -> exists t, step st t <> None.
+Proof. exact pool_progress. Qed.
+
+(** special cases that hold under either admission rule: spawn only; nesting depth 1 *)
+Theorem C13_spawn_progress : forall m rp prog sched,
   1 <= m -> pure prog = true -> nopool prog = true ->
-  let st := run sched (init m false prog) in
+  let st := run sched (init m rp prog) in
   final st = false -> exists t, step st t <> None.
 Proof. exact spawn_progress. Qed.
 
-(** ... nor when no pool is called from inside a pool task (nesting depth 1) *)
-Theorem C13_pool_progress_flat : forall m prog sched,
+Theorem C13_pool_progress_flat : forall m rp prog sched,
   1 <= m -> pure prog = true -> flat prog = true ->
-  let st := run sched (init m false prog) in
+  let st := run sched (init m rp prog) in
   final st = false -> exists t, step st t <> None.
 Proof. exact pool_progress_flat. Qed.
 
-(** the code as written: nesting depth 2 with one worker reaches a stuck, non-final state
-    although the sequential counterpart returns 6 *)
-Theorem C13_pool_deadlock_refuted :
+(** records of the defect repaired by d34a231 (model of the admission rule before it):
+    nesting depth 2 with one worker reaches a stuck, non-final state although the
+    sequential counterpart returns 6 ... *)
+Theorem C13_pool_deadlock_refuted_pre :
   exists (prog : code) (sched : list nat),
     pure prog = true /\ fresh prog = true /\ pdepth prog = 2 /\ seqev prog [] [] = Some [6%N] /\
     let st := run sched (init 1 false prog) in
     final st = false /\ forall t, step st t = None.
-Proof. exact pool_deadlock_refuted. Qed.
+Proof. exact pool_deadlock_refuted_pre. Qed.
 
-(** with one worker that program ([wait pool(wait pool(+1)) 5]) finishes under no schedule *)
-Theorem C13_pool_deadlock_every_schedule :
+(** ... that program ([wait pool(wait pool(+1)) 5]) finished under no schedule at all ... *)
+Theorem C13_pool_deadlock_every_schedule_pre :
   forall sched, final (run sched (init 1 false nested2)) = false.
-Proof. exact pool_deadlock_every_schedule. Qed.
+Proof. exact pool_deadlock_every_schedule_pre. Qed.
 
-(** n workers, n tasks that each wait for a nested pool task *)
-Theorem C13_pool_deadlock_refuted_n :
+(** ... and n workers with n tasks that each wait for a nested pool task could block each other *)
+Theorem C13_pool_deadlock_refuted_n_pre :
   forall n, In n [1; 2; 3; 4; 8] ->
   exists sched, pdepth (nested_wide n) = 2 /\
     (exists r, seqev (nested_wide n) [] [] = Some r) /\
     let st := run sched (init n false (nested_wide n)) in
     final st = false /\ forall t, step st t = None.
-Proof. exact pool_deadlock_refuted_n. Qed.
+Proof. exact pool_deadlock_refuted_n_pre. Qed.
 
-(** the proposed repair (a pool called from inside a pool task starts a dedicated thread):
-    no side-effect-free program deadlocks, whatever its nesting and task count *)
-Theorem C13_pool_progress_repaired : forall m prog sched,
-  1 <= m -> pure prog = true ->
-  let st := run sched (init m true prog) in
-  final st = false -> exists t, step st t <> None.
-Proof. exact pool_progress_repaired. Qed.
-
-(** non-vacuity: a flat program with pool and spawn tasks and an array wait meets the premises,
-    runs to a final state under a schedule, with the sequential value; and the deadlock witness
-    finishes under the repaired rule *)
+(** non-vacuity: a program with pool and spawn tasks and an array wait meets the premises and
+    runs to a final state with the sequential value; the former deadlock witnesses (depth 2,
+    one worker; 4 nested tasks on 2 workers) finish in the model of the code *)
 Example C13_nonvacuous :
   let prog := [Push 5%N; Dup; Fork true 1 [Work 2; Push 1%N; AddAll]; Dup; Fork false 1 [Push 2%N; AddAll];
                Pop; WaitAll [] [2; 1] []; AddAll] in
   pure prog = true /\ flat prog = true /\ fresh prog = true /\ pdepth prog = 1 /\
   seqev prog [] [] = Some [13%N] /\
-  root_res (fst (run_strat 200 pick_high (init 1 false prog) [])) = Some (Some [13%N]) /\
-  root_res (fst (run_strat 200 pick_low (init 1 true nested2) [])) = Some (Some [6%N]).
+  root_res (fst (run_strat 200 pick_high (init 1 true prog) [])) = Some (Some [13%N]) /\
+  pure nested2 = true /\ pdepth nested2 = 2 /\
+  root_res (fst (run_strat 200 pick_low (init 1 true nested2) [])) = Some (Some [6%N]) /\
+  root_res (fst (run_strat 400 pick_busy (init 2 true (nested_wide 4)) [])) = Some (Some [1%N; 1%N; 1%N; 1%N]).
 Proof. vm_compute. repeat split; reflexivity. Qed.
 
 Print Assumptions C13_determinism.
 Print Assumptions C13_wait_order.
 Print Assumptions C13_fifo.
+Print Assumptions C13_pool_progress.
 Print Assumptions C13_spawn_progress.
 Print Assumptions C13_pool_progress_flat.
-Print Assumptions C13_pool_deadlock_refuted.
-Print Assumptions C13_pool_deadlock_every_schedule.
-Print Assumptions C13_pool_deadlock_refuted_n.
-Print Assumptions C13_pool_progress_repaired.
+Print Assumptions C13_pool_deadlock_refuted_pre.
+Print Assumptions C13_pool_deadlock_every_schedule_pre.
+Print Assumptions C13_pool_deadlock_refuted_n_pre.
